@@ -83,9 +83,14 @@ def check(src, toks, ctx=None):
         if ctx is not None:
             ctx.count(k, n)
     open_ol = []
+    containers = []   # types of the container tokens currently open
     for idx, t in enumerate(toks):
         ty = t.type
         m = t.map
+        if t.nesting == 1 and ty in ("blockquote_open", "list_item_open", "bullet_list_open", "ordered_list_open"):
+            containers.append(ty)
+        elif t.nesting == -1 and ty in ("blockquote_close", "list_item_close", "bullet_list_close", "ordered_list_close") and containers:
+            containers.pop()
         if ty in ("code_block", "fence", "html_block"):
             if not m or not (0 <= m[0] < m[1] <= N):
                 continue  # map sanity is C03's business
@@ -152,6 +157,14 @@ def check(src, toks, ctx=None):
                                 break
                         else:
                             cnt("fence_indent_checks", len(cols))
+                if cols and ty == "code_block" and all(x == "blockquote_open" for x in containers):
+                    # at top level or inside quotes only, an indented code block loses exactly four columns after the quote's content origin
+                    for c0, strict, ci, si in cols:
+                        if c0 != 4:
+                            errs.append(("code_block-indent-column", f"code_block line {si!r} -> {ci!r} lost {c0} columns of indentation after the quote prefix, an indented code block strips exactly 4"))
+                            break
+                    else:
+                        cnt("code_block_absolute_checks", len(cols))
                 if cols:
                     imax = max(c0 for c0, _, _, _ in cols)
                     for c0, strict, ci, si in cols:
@@ -385,6 +398,19 @@ def run(ctx):
         check_case(ctx, {"conf": conf, "src": src})
         if kind == "verbatim":
             ctx.sample({"conf": conf, "src": src[:200]}, every=2999)
+    # quote lines spelled out: indentation of the marker x what follows it (nothing, space, tab, mixtures) x a verbatim or plain rest;
+    # 2-4 such lines per document, optionally inside a list item or an outer quote
+    ind = ["", " ", "  ", "   "]
+    after = ["", " ", "\t", " \t", "\t\t", "\t \t", "  \t", "\t ", "   ", "     "]
+    rest = ["code", "    code", "\tcode", "```", "~~~", "x", "", "<div>", "- y", "a\tb"]
+    for _ in range(ctx.scale(60000, 1500000)):
+        outer = rng.choice(["", "", "", "- ", "> ", "1. ", ">"])
+        cont = {"- ": "  ", "1. ": "   "}.get(outer, outer)
+        ls = []
+        for i in range(rng.randint(2, 4)):
+            ls.append((outer if i == 0 else cont) + rng.choice(ind) + ">" + rng.choice(after) + rng.choice(rest))
+        ctx.count("wl.quote_lines_spelled_out")
+        check_case(ctx, {"conf": rng.choice([W.PANEL[0], W.PANEL[2], W.PANEL[1]]), "src": "\n".join(ls) + rng.choice(["\n", ""])})
     # ordered markers and hr spellings enumerated
     k = 0
     for digits in ["0", "1", "2", "007", "10", "99", "123456789", "000000001", "1234567890"]:
